@@ -10,7 +10,7 @@ from harness import hidc_driver as H
 
 PROPERTY = 'C17'
 RULE = ('write/writeln(int): every 16-bit value exhaustively (batches passed as argv int array, alternating '
-        'write/writeln forms), boundary grid + Hypothesis-drawn values at 24/32/64 bit; write(bool) from every bool '
+        'write/writeln forms), boundary grid + Hypothesis-drawn values at 24/32/48/64 bit; write(int) of compile-time constants in ~40 spellings (decimal / hex / octal / binary / separators, character-born, bool-born, const variables, folded arithmetic, lengths of constants); write(bool) from every bool '
         'source incl. bools cast from run-time ints / bytes of every bit pattern class (negative, zero low byte, sign bit only), stored, negated, passed and returned; write(byte) all 256 values; write(string)/write(byte array) with lengths 0..64 and arbitrary byte '
         'contents in every storage form (const global, hoisted literal, stack literal, mutable local, byte a[n], '
         'parameter R/RC/RW, argv array, string->const byte[] conversion of variables / literals / const strings, argv string), also placed around and above address '
@@ -22,7 +22,7 @@ RULE = ('write/writeln(int): every 16-bit value exhaustively (batches passed as 
 ASSUMPTIONS = ['verification Sphinx VM (svm) as calibrated in DESIGN.md 2.1', 'Python int/str as decimal oracle']
 MIN_NONTRIVIAL = 50
 
-WORD_SIZES = (2, 3, 4, 8)
+WORD_SIZES = (2, 3, 4, 8, 6)
 
 
 def signed(v, ws):
@@ -338,6 +338,33 @@ BOOL_EXP = (b'true false true false true false true false false true true false 
 
 # write(bool) of bools that come from a run-time int / byte: the value written must be canonical whatever bit pattern
 # the int had (negative values, zero low byte, only the sign bit set)
+# write(int) of compile-time constants in every spelling: the text printed is the decimal value, however the constant was written
+CONST_INT_SPELLINGS = [
+    ('97', 97), ("'a' is int", 97), ('0x61', 97), ('0b1100001', 97), ('0o141', 97), ('9_7', 97), ('+97', 97), ('-(-97)', 97), ('96 + 1', 97), ("'a' + 0", 97),
+    ("'\\n' is int", 10), ("'\\0' is int", 0), ("'\\x7f' is int", 127), ("'\\xff' is int", 255), ("'*' is int", 42), ("'\\'' is int", 39), ("'\\\\' is int", 92),
+    ('true is int', 1), ('false is int', 0), ("('a' is int) is byte is int" if False else "(('a' is int) is byte) is int", 97), ('KC', 42), ('KI', -7), ('KB is int', 200), ('KC + 0', 42),
+    ('0', 0), ('-1', -1), ('-0', 0), ('1000', 1000), ('-1000', -1000), ('32767', 32767), ('-32768', -32768), ('255', 255), ('256', 256),
+    ('"abc".length', 3), ('"".length', 0), ('[1, 2, 3].length', 3), ('KS.length', 4), ("KS[1] is int", 98),
+]
+CONST_INT_GLOBALS = "const int KC = '*'; const int KI = -7; const byte KB = '\\xc8'; const string KS = \"abcd\";\n"
+
+
+def check_const_ints(stats, ws):
+    body = ''.join("  write(%s); write(';'); writeln(%s);\n" % (sp, sp) for sp, _ in CONST_INT_SPELLINGS)
+    src = CONST_INT_GLOBALS + 'empty @is_you() {\n' + body + '}\n'
+    r = execute(src, [], ws=ws, budget=5_000_000)
+    stats.evaluated(len(CONST_INT_SPELLINGS))
+    stats.cls('const_int_spellings', len(CONST_INT_SPELLINGS))
+    exp = b''.join(('%d;%d\n' % (v, v)).encode() for _, v in CONST_INT_SPELLINGS)
+    for sp, v in CONST_INT_SPELLINGS:
+        stats.nt('constint:%s:%d' % (sp, ws))
+    if r.out != exp or not r.won:
+        got = r.out.split(b'\n')
+        bad = [(sp, g, ('%d;%d' % (v, v)).encode()) for (sp, v), g in zip(CONST_INT_SPELLINGS, got) if g != ('%d;%d' % (v, v)).encode()][:4]
+        return 'write(int) of constants ws=%d: (spelling, got, expected) %r; flags %r outcome %s' % (ws, bad, r.flags, r.outcome)
+    return None
+
+
 BOOLINT_SRC = ('bool id(bool q) { return q; }\n'
                'empty @is_you(const int[] a) { for (int i = 0; i < a.length; i += 1) { '
                'write(a[i] is bool); bool b = a[i] is bool; write(b); write(not b); bool[] box = [false, b, false]; write(box[1]); write(box[0]); write(box[2]); '
@@ -408,6 +435,9 @@ def run_shard(desc, seed, tier):
             stats.nt('bool:%d' % ws)
             if r.out != BOOL_EXP or not r.won:
                 stats.violation({'kind': 'bool', 'value': ws, 'message': 'write(bool) ws=%d: got %r flags=%r' % (ws, r.out, r.flags)})
+            m_ = check_const_ints(stats, ws)
+            if m_:
+                stats.violation({'kind': 'constint', 'value': ws, 'message': m_, 'signature': 'constint'})
             lo_ = -(1 << (8 * ws - 1))
             bvals = [0, 1, -1, 2, 128, -128, 255, 256, -256, -512, -4096, 512, 4096, lo_, lo_ + 1, lo_ + 256, -lo_ - 1, -lo_ - 256, 257, -255, -257, 0x7f00, -0x7f00]
             r = execute(BOOLINT_SRC, [str(v) for v in bvals], ws=ws)
@@ -563,6 +593,9 @@ def replay(case):
             r = check_bytes_case(st_, v[0], v[1], v[2], v[3], v[4], tuple(v[5]))
         elif kind == 'int_site':
             r = check_int_site(st_, v[0], v[1], v[2], v[3])
+        elif kind == 'constint':
+            m_ = check_const_ints(st_, v)
+            r = ('constint', m_) if m_ else None
         elif kind == 'boolint':
             s2 = run_shard(('bool_byte', 0), 1, 'quick')
             bad = [x for x in s2.violations if x.get('kind') == 'boolint']
